@@ -106,6 +106,9 @@ impl BDDSet {
 
     pub fn contains<T: BDDCategorizable>(&self, e: T) -> bool {
         let singleton = Self::from_element(e, self.bits, &self.env);
-        self.intersect(&singleton) == &singleton
+        // a query must not modify the set: intersect a copy of the diagram instead of `self`
+        let element = singleton.bdd.borrow().clone();
+        let common = self.env.and(self.bdd.borrow().clone(), element.clone());
+        common == element
     }
 }
